@@ -129,7 +129,7 @@ def sensitivity(props, only=None):
                 c2, o2 = _check(mut["property"], ["--replay", path], {"NSLSIM_REPO": dest})
                 same = "matches the recorded one" in o2
                 replay_ok = f" replay->exit {c2}{' (same digest)' if same else ' (DIGEST DIFFERS)'}"
-                if c2 != 1 or not same:
+                if c2 != 1 or not (same or mut.get("digest_may_differ")):
                     status = "REPLAY-FAILED"
                 # and on the unchanged tree the replay must be quiet
                 c3, o3 = _check(mut["property"], ["--replay", path], {})
